@@ -158,9 +158,14 @@ pub fn gen_world(seed: u64) -> C13World {
         alias_d = true;
     }
     // planted faults of the real kind
-    let planted = if r.chance(1, 6) { r.below(3) + 1 } else { 0 };
+    let planted = if r.chance(1, 6) { r.below(4) + 1 } else { 0 };
     if planted == 2 {
         tree.push(("app/dangling.libsonnet".into(), Entry::Symlink("nowhere.libsonnet".into())));
+    }
+    if planted == 4 {
+        // a symlink loop: the existence test fails, the search moves on and finds nothing
+        tree.push(("app/loop_a.libsonnet".into(), Entry::Symlink("loop_b.libsonnet".into())));
+        tree.push(("app/loop_b.libsonnet".into(), Entry::Symlink("loop_a.libsonnet".into())));
     }
     if planted == 3 {
         tree.push(("app/isdir.libsonnet".into(), Entry::Dir));
@@ -231,6 +236,7 @@ pub fn gen_world(seed: u64) -> C13World {
             let sp = match planted {
                 1 => "nonexistent_x.libsonnet",
                 2 => "dangling.libsonnet",
+                4 => "loop_a.libsonnet",
                 _ => "isdir.libsonnet",
             };
             let kind = if r.chance(1, 2) { DepKind::Import } else { DepKind::ImportStr };
